@@ -412,11 +412,11 @@ def query_mutants(rng, path, pairs, n):
         elif op == 'path':
             p = rng.choice(('/', '', path + '/', path + '/x', '//', path.upper(), path + '\x08', '/\x00', '/\x7f', '/\xe9', '/op\x1f', path + '%s',
                             '/' + 'n' * 3000, '/<a>', '/]]>'))
-        qs = '&'.join('%s=%s' % (quote(k, safe=''), quote(v, safe='')) for k, v in ps)
+        qs = '&'.join('%s=%s' % (quote(k.encode('utf8', 'surrogatepass'), safe=''), quote(v.encode('utf8', 'surrogatepass'), safe='')) for k, v in ps)
         if op == 'badpct':
             qs += rng.choice(('&%', '&a=%zz', '&%=%', '&=', '&&', '&a', '&a=%ff%fe', '&%00=1'))
         if op == 'novalue' and ps:
-            qs += '&' + quote(ps[0][0], safe='')
+            qs += '&' + quote(ps[0][0].encode('utf8', 'surrogatepass'), safe='')
         out.append(('mut:' + op, p, qs))
     return out
 
